@@ -1733,17 +1733,29 @@ uint32_t var_opt_sketch<T, A>::to_log_2(uint32_t v) {
 // Returns an integer in the range [0, max_value) -- excludes max_value
 template<typename T, typename A>
 uint32_t var_opt_sketch<T, A>::next_int(uint32_t max_value) {
+#ifdef DATASKETCHES_VERIF
+  return static_cast<uint32_t>(random_utils::verif_next_below(max_value));
+#else
   std::uniform_int_distribution<uint32_t> dist(0, max_value - 1);
   return dist(random_utils::rand);
+#endif
 }
 
 template<typename T, typename A>
 double var_opt_sketch<T, A>::next_double_exclude_zero() {
+#ifdef DATASKETCHES_VERIF
+  double r = random_utils::verif_next_double();
+  while (r == 0.0) {
+    r = random_utils::verif_next_double();
+  }
+  return r;
+#else
   double r = random_utils::next_double(random_utils::rand);
   while (r == 0.0) {
     r = random_utils::next_double(random_utils::rand);
   }
   return r;
+#endif
 }
 
 }
